@@ -157,6 +157,7 @@ pub struct ClientOp {
     pub done: bool,
     /// the node crashed while this request was outstanding (the client's connection broke)
     pub lost: bool,
+    pub ok: Option<bool>,
 }
 
 pub struct JoinOp {
@@ -195,6 +196,8 @@ pub struct Cluster {
     pub sel: Value,
     /// AR message id -> id of the AppendEntries request it answers
     pub ar_req: std::collections::HashMap<u64, u64>,
+    /// records of the individual steps executed inside a macro step (Drain / Final / Recover)
+    pub subrecs: Vec<Value>,
     pub step_no: u64,
     pub snap_dir: std::path::PathBuf,
 }
@@ -259,6 +262,7 @@ impl Cluster {
             delivered: vec![],
             sel: Value::Null,
             ar_req: Default::default(),
+            subrecs: vec![],
             step_no: 0,
             snap_dir,
         };
@@ -436,6 +440,7 @@ impl Cluster {
                 match std::pin::Pin::new(rx).poll(&mut cx) {
                     std::task::Poll::Ready(Ok(Ok(resp))) => {
                         c.done = true;
+                        c.ok = Some(resp.error == ErrorCode::Success);
                         self.events.push(json!({"e":"ClientResp","id":c.id,"node":c.node,"kind":c.kind,
                             "key":c.key,"val":c.val,"exp":c.exp,"policy":c.policy,"invoked":c.invoked_at,
                             "err": resp.error as i32,
@@ -941,6 +946,7 @@ impl Cluster {
             rx: Some(rx),
             done: false,
             lost: false,
+            ok: None,
         });
         let r = self.raft(n).unwrap().verif_client(vec![cmd]).await;
         if let Err(e) = r {
@@ -948,6 +954,18 @@ impl Cluster {
         }
         self.settle().await;
         true
+    }
+
+    /// Record one inner step of a macro step as a trace record of its own.
+    async fn sub(
+        &mut self,
+        label: Value,
+        applied: bool,
+    ) {
+        let st = self.project().await;
+        let ev = std::mem::take(&mut self.events);
+        let dl = std::mem::take(&mut self.delivered);
+        self.subrecs.push(json!({"a": label, "applied": applied, "st": st, "ev": ev, "msgs": dl}));
     }
 
     /// Quiet period: deliver every message in FIFO order, finish open rounds, let every leader send a
@@ -965,45 +983,49 @@ impl Cluster {
                     break;
                 };
                 self.sel = Value::Null;
-                let ok = match m.ty() {
+                let deliverable = self.is_up(m.to) && !self.is_busy(m.to);
+                let (label, ok) = match m.ty() {
                     "VQ" => {
-                        if self.is_up(m.to) && !self.is_busy(m.to) {
-                            self.do_deliver_vq(m.from, m.to, false).await
+                        if deliverable {
+                            (json!({"a":"DeliverVQ","from":m.from,"to":m.to}), self.do_deliver_vq(m.from, m.to, false).await)
                         } else {
-                            self.do_drop_vq(m.from, m.to).await
+                            (json!({"a":"DropVQ","from":m.from,"to":m.to}), self.do_drop_vq(m.from, m.to).await)
                         }
                     }
                     "AE" => {
-                        if self.is_up(m.to) && !self.is_busy(m.to) {
-                            self.do_deliver_ae(m.from, m.to, 1, 0, false).await
+                        if deliverable {
+                            (json!({"a":"DeliverAE","from":m.from,"to":m.to,"k":1}), self.do_deliver_ae(m.from, m.to, 1, 0, false).await)
                         } else {
-                            self.do_drop("AE", m.from, m.to, 0)
+                            (json!({"a":"DropMsg","ty":"AE","from":m.from,"to":m.to}), self.do_drop("AE", m.from, m.to, 0))
                         }
                     }
                     "AR" => {
-                        if self.is_up(m.to) && !self.is_busy(m.to) {
-                            self.do_deliver_ar(m.from, m.to, 0).await
+                        if deliverable {
+                            (json!({"a":"DeliverAR","from":m.from,"to":m.to}), self.do_deliver_ar(m.from, m.to, 0).await)
                         } else {
-                            self.do_drop("AR", m.from, m.to, 0)
+                            (json!({"a":"DropMsg","ty":"AR","from":m.from,"to":m.to}), self.do_drop("AR", m.from, m.to, 0))
                         }
                     }
-                    _ => self.do_deliver_snap(m.from, m.to, false).await,
+                    _ => (json!({"a":"DeliverSnap","from":m.from,"to":m.to}), self.do_deliver_snap(m.from, m.to, false).await),
                 };
                 if !ok {
                     self.net.take(m.id);
                 }
+                self.sub(label, ok).await;
             }
             let ids: Vec<u32> = self.slots.keys().cloned().collect();
             for n in ids.iter() {
                 if self.is_busy(*n) {
-                    self.do_finish_round(*n).await;
+                    let ok = self.do_finish_round(*n).await;
+                    self.sub(json!({"a":"FinishRound","n":*n}), ok).await;
                 }
             }
             for n in ids {
                 if self.is_up(n) && !self.is_busy(n) {
                     if let Some(v) = self.view(n) {
                         if role_str(v.role) == "L" {
-                            self.do_heartbeat(n).await;
+                            let ok = self.do_heartbeat(n).await;
+                            self.sub(json!({"a":"Heartbeat","n":n}), ok).await;
                         }
                     }
                 }
@@ -1024,7 +1046,8 @@ impl Cluster {
         let ids: Vec<u32> = self.slots.keys().cloned().collect();
         for n in ids.iter() {
             if self.is_busy(*n) {
-                self.do_finish_round(*n).await;
+                let ok = self.do_finish_round(*n).await;
+                self.sub(json!({"a":"FinishRound","n":*n}), ok).await;
             }
         }
         for n in ids {
@@ -1032,6 +1055,8 @@ impl Cluster {
                 if let Some(v) = self.view(n) {
                     if role_str(v.role) == "L" {
                         let _ = self.raft(n).unwrap().verif_tick().await;
+                        self.settle().await;
+                        self.sub(json!({"a":"LeaderTick","n":n}), true).await;
                     }
                 }
             }
@@ -1058,14 +1083,15 @@ impl Cluster {
         let ids: Vec<u32> = self.slots.keys().cloned().collect();
         for n in ids.iter() {
             if !self.is_up(*n) {
-                self.do_restart(*n).await;
+                let ok = self.do_restart(*n).await;
+                self.sub(json!({"a":"Restart","n":*n}), ok).await;
             }
             if let Some(h) = self.slots[n].h.as_ref() {
                 h.se.l.hold.store(false, Ordering::SeqCst);
                 h.sm.hold.store(false, Ordering::SeqCst);
             }
         }
-        self.do_drain(3).await;
+        self.do_drain(1).await;
         let mut write_ok = false;
         let mut turn = 0usize;
         for _ in 0..rounds {
@@ -1080,12 +1106,16 @@ impl Cluster {
                 Some(l) => {
                     let before = self.clients.len();
                     let st = json!({"a":"Client","n":l,"op":"put","key":"k1","val":format!("recover{}", self.step_no)});
-                    self.do_client(&st).await;
-                    self.do_drain(6).await;
+                    let ok = self.do_client(&st).await;
+                    self.sub(st.clone(), ok).await;
+                    for _ in 0..6 {
+                        self.do_drain(1).await;
+                        if self.clients.len() > before && self.clients[before].done {
+                            break;
+                        }
+                    }
                     if self.clients.len() > before {
-                        // response recorded by collect_async_events as ClientResp; look at done flag + last event
-                        let id = self.clients[before].id;
-                        write_ok = self.events.iter().any(|e| e["e"] == "ClientResp" && e["id"] == id && e["ok"] == true);
+                        write_ok = self.clients[before].ok == Some(true);
                     }
                     if write_ok {
                         break;
@@ -1112,18 +1142,17 @@ impl Cluster {
                     let c = cands[0].2;
                     turn += 1;
                     if role_str(self.view(c).unwrap().role) == "F" {
-                        self.do_timeout(c).await;
+                        let ok = self.do_timeout(c).await;
+                        self.sub(json!({"a":"Timeout","n":c}), ok).await;
                     }
-                    self.do_start_round(c).await;
-                    self.do_drain(3).await;
+                    let ok = self.do_start_round(c).await;
+                    self.sub(json!({"a":"StartRound","n":c}), ok).await;
+                    self.do_drain(2).await;
                 }
             }
         }
-        self.do_drain(6).await;
-        write_ok = write_ok
-            || self.events.iter().any(|e| {
-                e["e"] == "ClientResp" && e["ok"] == true && e["val"].as_str().map(|v| v.starts_with("recover")).unwrap_or(false)
-            });
+        self.do_drain(1).await;
+        write_ok = write_ok || self.clients.iter().any(|c| c.val.starts_with("recover") && c.ok == Some(true));
         let mut leader = 0u32;
         let mut lcommit = 0u64;
         let mut lagging = vec![];
@@ -1146,7 +1175,7 @@ impl Cluster {
             if leader != 0 && lagging.is_empty() {
                 break;
             }
-            self.do_drain(2).await;
+            self.do_drain(1).await;
         }
         self.events.push(json!({"e":"Recovered","leader":leader,"writeOk":write_ok,"leaderCommit":lcommit,
             "lagging": lagging, "rounds": rounds}));
